@@ -127,7 +127,8 @@ pub fn check_step(ctx: &mut Ctx, s: &Step) -> Result<(), Violation> {
     }
     // the independent standard writer's FEN (en-passant square after every double push, clocks vary)
     let h = fp(p);
-    let std_fen = p.fen_with_clocks((h % 100) as u32, 1 + ((h >> 8) % 200) as u32);
+    let (half, full) = Pos::clocks_for(h);
+    let std_fen = p.fen_with_clocks(half, full);
     match Board::from_str(&std_fen) {
         Ok(r) => {
             if r != *b {
